@@ -348,6 +348,86 @@ Case gen_case(const std::string &profile, uint64_t seed, const GenOpts &go) {
         c.ops.push_back(op);
         return c;
     }
+    if (profile == "sing") {
+        base_config(rc, c, go, false);
+        int n = c.M.n;
+        if (n < 2) { n = (int)rc.range(2, 12); Pattern P0 = gen_pattern(rc, n, F_RANDOM); c.M = pattern_to_mat(P0); c.transversal = P0.transversal;
+                     c.values.clear(); c.values.push_back(gen_values(rc, c.M, V_UNIFORM, c.prec, P0.transversal)); c.M.val = c.values[0]; c.family = "random";
+                     c.ldb = n; std::vector<cld> b((size_t)c.ldb * c.nrhs, cld(1, 0)); c.rhs.clear(); c.rhs.push_back(b); if (c.colperm == 4) c.colperm = 0; c.user_perm_c.clear(); }
+        // rebuild as column sets so that the pattern can be edited
+        std::vector<std::vector<std::pair<int, cld>>> cols(n);
+        for (int j = 0; j < n; ++j) for (int k = c.M.colptr[j]; k < c.M.colptr[j + 1]; ++k) cols[j].push_back({c.M.rowind[k], c.values[0][k]});
+        int mode = (int)rc.below(100);
+        auto pick_col = [&]() { return (int)rc.below(n); };
+        std::string kind;
+        if (mode < 22) { kind = "zero_column"; int cc = pick_col(); for (auto &e : cols[cc]) e.second = 0; }
+        else if (mode < 36) { kind = "zero_row"; int r = pick_col(); for (auto &col : cols) for (auto &e : col) if (e.first == r) e.second = 0; }
+        else if (mode < 44) { kind = "empty_column"; int cc = pick_col(); cols[cc].clear(); }
+        else if (mode < 54) { kind = "empty_row"; int r = pick_col(); for (auto &col : cols) { std::vector<std::pair<int, cld>> k2; for (auto &e : col) if (e.first != r) k2.push_back(e); col = k2; } }
+        else if (mode < 70) {
+            kind = "hall_violation";
+            int k = (int)rc.range(1, std::min(3, n - 1));
+            std::vector<int> rows = rand_perm(rc, n); rows.resize(k); std::sort(rows.begin(), rows.end());
+            std::vector<int> cs = rand_perm(rc, n); cs.resize(k + 1);
+            for (int cc : cs) { cols[cc].clear(); for (int r : rows) if (rc.chance(0.8) || cols[cc].empty()) cols[cc].push_back({r, round_prec(cld((ld)(0.1 + rc.unit()), 0), c.prec)}); }
+        } else if (mode < 80) {
+            kind = "duplicate_column";
+            int a = pick_col(), b = pick_col(); if (a == b) b = (a + 1) % n;
+            cols[b] = cols[a]; for (auto &e : cols[b]) e.second = e.second * cld(2, 0);
+        } else if (mode < 90) {
+            kind = "two_zero_columns";
+            int a = pick_col(), b = pick_col();
+            for (auto &e : cols[a]) e.second = 0;
+            for (auto &e : cols[b]) e.second = 0;
+        } else kind = "nonsingular_control";
+        c.family += "+" + kind;
+        c.tags["sing_kind"] = mode;
+        c.expect_singular = kind != "nonsingular_control";
+        c.M.colptr.assign(1, 0); c.M.rowind.clear(); std::vector<cld> v;
+        for (int j = 0; j < n; ++j) { for (auto &e : cols[j]) { c.M.rowind.push_back(e.first); v.push_back(e.second); } c.M.colptr.push_back((int)c.M.rowind.size()); }
+        c.values.clear(); c.values.push_back(v); c.M.val = v; c.transversal.clear();
+        OpSpec op;
+        gen_tunables(rc, op.ienv, n);
+        op.dyn_snode = false;
+        op.x.nprocs = rc.chance(0.15) ? 1 : (int)rc.range(2, 8);
+        op.x.panel_size = (int)op.ienv[1]; op.x.relax = (int)op.ienv[2];
+        int e = (int)rc.below(10);
+        op.kind = e < 5 ? OP_GSSV : e < 9 ? OP_GSSVX : OP_ROUTE;
+        op.x.u = op.kind == OP_GSSV ? 1.0 : (rc.chance(0.5) ? 1.0 : rc.unit());
+        if (op.kind == OP_GSSVX) { op.x.fact = rc.chance(0.4) ? 1 : 0; op.x.trans = (int)rc.below(3); if (!prec_is_complex(c.prec) && op.x.trans == 2) op.x.trans = 1; }
+        gen_sched(rs, op.sched, op.x.nprocs, baseline, profile);
+        c.ops.push_back(op);
+        return c;
+    }
+    if (profile == "svx") {
+        base_config(rc, c, go, true);
+        int n = c.M.n;
+        if (rc.chance(0.35)) {   // force equilibration outcomes
+            c.values[0] = gen_values(rc, c.M, V_BADSCALE, c.prec, c.transversal); c.M.val = c.values[0]; c.valclass = "badscale"; c.tags["valclass"] = V_BADSCALE;
+        }
+        if (c.nrhs == 0 && rc.chance(0.7)) { c.nrhs = 1; }
+        bool cpx = prec_is_complex(c.prec);
+        c.rhs.clear();
+        for (int k = 0; k < 2; ++k) { std::vector<cld> b((size_t)c.ldb * c.nrhs); for (auto &x : b) x = round_prec(cld((ld)(rc.unit() * 2 - 1), cpx ? (ld)(rc.unit() * 2 - 1) : 0), c.prec); c.rhs.push_back(b); }
+        OpSpec op;
+        gen_tunables(rc, op.ienv, n);
+        op.dyn_snode = false;
+        op.kind = OP_GSSVX;
+        op.x.nprocs = rc.chance(0.15) ? 1 : (int)rc.range(2, 8);
+        op.x.panel_size = (int)op.ienv[1]; op.x.relax = (int)op.ienv[2];
+        op.x.u = rc.chance(0.7) ? (0.1 + 0.9 * rc.unit()) : (rc.chance(0.5) ? 1.0 : rc.unit());
+        if (rc.chance(0.3)) op.x.u = 1.0;
+        op.x.fact = rc.chance(0.6) ? 1 : 0;
+        op.x.trans = (int)rc.below(3);
+        gen_sched(rs, op.sched, op.x.nprocs, baseline, profile);
+        c.ops.push_back(op);
+        if (rc.chance(0.4)) {
+            OpSpec o2 = op; o2.x.fact = 2; o2.x.trans = (int)rc.below(3); o2.rhs_id = 1; o2.x.nprocs = (int)rc.range(1, 4);
+            gen_sched(rs, o2.sched, o2.x.nprocs, baseline, profile);
+            c.ops.push_back(o2);
+        }
+        return c;
+    }
     // unknown profile: empty case
     return c;
 }
